@@ -116,6 +116,11 @@ def rule_handout(ctx):
     for p in trues:
         conds = dict()
         for t, v in p.conds:
+            # `not X` being v is X being (not v)
+            while t.startswith("not "):
+                t, v = t[4:].strip(), (not v)
+                if t.startswith("(") and t.endswith(")"):
+                    t = t[1:-1]
             conds[t] = v
         ok_active = any(t.endswith(".active") and v is True for t, v in conds.items())
         ok_paused = any(t.endswith(".paused") and v is False for t, v in conds.items())
